@@ -207,7 +207,7 @@ func runSensitivity(r *Report) {
 			OwnSilent bool   `json:"own_checks_silent"` // detected by another property's check only
 		}
 		b, err := os.ReadFile(mf)
-		if err != nil || json.Unmarshal(b, &meta) != nil || strings.HasPrefix(meta.Detected, "NOT DETECTED") {
+		if err != nil || json.Unmarshal(b, &meta) != nil || strings.HasPrefix(meta.Detected, "NOT DETECTED") || strings.HasPrefix(meta.Detected, "not-applicable") {
 			continue
 		}
 		named := strings.Contains(meta.Detected, r.Property+".") || strings.Contains(meta.Detected, r.Property+"/")
